@@ -719,17 +719,20 @@ func (m *Manager) publishBlockInternal(ctx context.Context) error {
 		return fmt.Errorf("failed to save block: %w", err)
 	}
 
+	newState.DAHeight = m.daHeight.Load()
+	// After this call m.lastState is the NEW state returned from ApplyBlock
+	// updateState also commits the DB tx.
+	// The state is persisted before the store height: if the process dies in between, NewManager
+	// raises the store height to the height of the stored state on restart. The other order would
+	// leave a store height ahead of the state, which nothing repairs.
+	if err = m.updateState(ctx, newState); err != nil {
+		return fmt.Errorf("failed to update state: %w", err)
+	}
+
 	// Update the store height before submitting to the DA layer but after committing to the DB
 	headerHeight := header.Height()
 	if err = m.store.SetHeight(ctx, headerHeight); err != nil {
 		return err
-	}
-
-	newState.DAHeight = m.daHeight.Load()
-	// After this call m.lastState is the NEW state returned from ApplyBlock
-	// updateState also commits the DB tx
-	if err = m.updateState(ctx, newState); err != nil {
-		return fmt.Errorf("failed to update state: %w", err)
 	}
 
 	m.recordMetrics(data)
